@@ -25,6 +25,7 @@ from . import common, fxgen
 from .common import Report
 
 ABSENT = {"present": False}
+INT_VOCAB = [v for v in fxgen.TRACK_VOCAB if v != "near1"]   # near1 (x 1.0078125) leaves the integers: such graphs could only be skipped here
 
 
 class Capture(fx.Interpreter):
@@ -110,7 +111,7 @@ def trace_backend(rng: random.Random, n_ops: int, modes: Tuple[str, ...] = ("all
     calls, so a later forward-only or partial-backward run must not report the previous run's backward metrics)."""
     from unit_scaling.transforms._track_scales import ScaleTrackingBackend
 
-    gm, nin, nout = fxgen.random_tracked_module(rng, n_ops)
+    gm, nin, nout = fxgen.random_tracked_module(rng, n_ops, INT_VOCAB)
     g = torch.Generator().manual_seed(rng.randrange(1 << 30))
     be = ScaleTrackingBackend()
     f = None
@@ -321,7 +322,7 @@ def trace_analyse(rng: random.Random, n_ops: int) -> Optional[Dict[str, Any]]:
 
     b = fxgen.Builder(rng, 1)
     for _ in range(n_ops):
-        b.add_op([v for v in fxgen.TRACK_VOCAB if v not in ("detach_branch",)])
+        b.add_op([v for v in INT_VOCAB if v not in ("detach_branch",)])
     gm = b.finish(1)
     x = fxgen.int_inputs(rng, 1)[0]
     g = torch.Generator().manual_seed(rng.randrange(1 << 30))
